@@ -199,7 +199,10 @@ class NetRun:
                     self.renames_seen = 0
                 if self.inject_at_save is not None and persistence.need_save:
                     data, self.inject_at_save = self.inject_at_save, None
+                    sim.pct_arm()
                     self.world.device.inject(data)
+                    # the saving thread may lose the processor right here, before it has looked at anything
+                    sim.yield_point()
             if self.saves_running and persistence.need_save:
                 self.probe("save_started_while_another_running")
             self.saves_running += 1
@@ -375,7 +378,21 @@ class NetRun:
         self.probe("tierA_lines" if tier == "A" else "tierB_lines")
         snap_before = (W.projection(gateway.sensors), W.transient(gateway.sensors), W.ota_state(gateway))
         t_before = world.sim.time()
-        if at_save and self.broker is None:
+        if at_save == "tick" and self.broker is None:
+            # the line is in flight when the next scheduled save fires: in the threaded flavours it sits in
+            # the job queue while pump and timer wake at the same instant, in the asyncio flavours it is
+            # delivered at the very instant the save task wakes up
+            data = text.encode("utf-8", "surrogateescape") + ending.encode()
+            wait = ((self.tick_times[-1] if self.tick_times else getattr(world, "persist_t0", 0.0)) + 10.0) - world.sim.now
+            lead = 0.0 if W.is_async(self.flavour) else 0.01
+            if wait - lead > 0:
+                world.sim.sleep(wait - lead)
+            world.sim.pct_arm()
+            world.device.inject(data)
+            self.probe("line_in_flight_at_tick")
+            world.advance(0.3)
+            ok = True
+        elif at_save and self.broker is None:
             # delivered by the save hook at the instant the next scheduled save begins (inside the
             # saving thread); whether the pump handles it before the save ends is the scheduler's call
             self.inject_at_save = text.encode("utf-8", "surrogateescape") + ending.encode()
@@ -945,6 +962,7 @@ class NetRun:
         world.settle()
         self.stopping = False
         self.inject_at_save = None  # a line that found no save to ride on is not delivered to the next lifetime
+        self.tick_times = []  # the next lifetime has its own save schedule
         world.advance(0.1)
         stopped_gateway = world.gateway
         if late_line is not None:
@@ -1124,6 +1142,8 @@ class NetRun:
                 self.op_race(op[1])
             elif kind == "line_at_save":
                 self._deliver_and_observe(op[1], "\n", at_save=True)
+            elif kind == "line_at_tick":
+                self._deliver_and_observe(op[1], "\n", at_save="tick")
             elif kind == "raw":
                 # a frame as the link delivered it, possibly with bytes that are not UTF-8
                 raw = bytes.fromhex(op[1])
